@@ -185,19 +185,22 @@ func (m *PluginManager) Install(ctx context.Context, name string, constraint *se
 
 	url := manifest.GetBinaryDownloadURL(version.Number)
 
-	newPluginDir := filepath.Join(getPluginDir(), repoSlug, fmt.Sprintf("octosql-plugin-%s", name), version.Number.String())
+	fullName := fmt.Sprintf("octosql-plugin-%s", name)
+	newPluginDir := filepath.Join(getPluginDir(), repoSlug, fullName, version.Number.String())
 
-	verifhook.CrashPoint("install:before-remove-old-version-dir")
-	if err := os.RemoveAll(newPluginDir); err != nil {
-		return fmt.Errorf("couldn't remove old plugin directory: %w", err)
-	}
+	// Download and unpack beside the plugins directory (same filesystem, never listed as a plugin), publish with rename:
+	// a version directory either does not exist or is complete.
+	stagingDir := filepath.Join(filepath.Clean(getPluginDir())+".staging", fmt.Sprintf("%s-%s-%s", repoSlug, fullName, version.Number.String()))
 
-	verifhook.CrashPoint("install:after-remove-old-version-dir")
-	if err := os.MkdirAll(newPluginDir, os.ModePerm); err != nil {
-		return fmt.Errorf("couldn't create plugins directory: %w", err)
+	verifhook.CrashPoint("install:before-remove-old-staging-dir")
+	if err := os.RemoveAll(stagingDir); err != nil {
+		return fmt.Errorf("couldn't remove old plugin staging directory: %w", err)
 	}
-	archiveFilePath := filepath.Join(newPluginDir, "archive.tar.gz")
-	verifhook.CrashPoint("install:after-mkdir-version-dir")
+	if err := os.MkdirAll(stagingDir, os.ModePerm); err != nil {
+		return fmt.Errorf("couldn't create plugin staging directory: %w", err)
+	}
+	archiveFilePath := filepath.Join(stagingDir, "archive.tar.gz")
+	verifhook.CrashPoint("install:after-mkdir-staging-dir")
 
 	// Anonymous function to take care of defers before we move forward.
 	err = func() error {
@@ -229,13 +232,49 @@ func (m *PluginManager) Install(ctx context.Context, name string, constraint *se
 	}
 
 	verifhook.CrashPoint("install:after-download-before-unarchive")
-	if err := archiver.NewTarGz().Unarchive(archiveFilePath, newPluginDir); err != nil {
+	if err := archiver.NewTarGz().Unarchive(archiveFilePath, stagingDir); err != nil {
 		return fmt.Errorf("couldn't unarchive plugin archive: %w", err)
 	}
 
 	verifhook.CrashPoint("install:after-unarchive-before-remove-archive")
 	if err := os.Remove(archiveFilePath); err != nil {
 		return fmt.Errorf("couldn't remove plugin archive: %w", err)
+	}
+
+	verifhook.CrashPoint("install:after-remove-archive-before-publish")
+	if _, err := os.Stat(newPluginDir); os.IsNotExist(err) {
+		if err := os.MkdirAll(filepath.Dir(newPluginDir), os.ModePerm); err != nil {
+			return fmt.Errorf("couldn't create plugins directory: %w", err)
+		}
+		verifhook.CrashPoint("install:before-rename-version-dir")
+		if err := os.Rename(stagingDir, newPluginDir); err != nil {
+			return fmt.Errorf("couldn't move plugin into place: %w", err)
+		}
+	} else {
+		// Re-installation: replace file by file (rename over the old file is atomic), so that the version stays runnable.
+		if err := os.MkdirAll(newPluginDir, os.ModePerm); err != nil {
+			return fmt.Errorf("couldn't create plugins directory: %w", err)
+		}
+		entries, err := os.ReadDir(stagingDir)
+		if err != nil {
+			return fmt.Errorf("couldn't list plugin staging directory: %w", err)
+		}
+		for _, entry := range entries {
+			target := filepath.Join(newPluginDir, entry.Name())
+			if entry.IsDir() {
+				if err := os.RemoveAll(target); err != nil {
+					return fmt.Errorf("couldn't remove old plugin subdirectory: %w", err)
+				}
+			}
+			verifhook.CrashPoint("install:before-replace-file")
+			if err := os.Rename(filepath.Join(stagingDir, entry.Name()), target); err != nil {
+				return fmt.Errorf("couldn't move plugin file into place: %w", err)
+			}
+		}
+		verifhook.CrashPoint("install:after-replace-files-before-remove-staging-dir")
+		if err := os.RemoveAll(stagingDir); err != nil {
+			return fmt.Errorf("couldn't remove plugin staging directory: %w", err)
+		}
 	}
 
 	verifhook.CrashPoint("install:after-remove-archive-before-register-extensions")
